@@ -69,6 +69,12 @@ fn check_general_type_compact(
         return Ok(());
     }
 
+    // An `any`/`unknown` expected type accepts every value, whatever the value type
+    // still has to be resolved to (alias chains, intersections) and at any depth.
+    if matches!(source, LuaType::Unknown | LuaType::Any) {
+        return Ok(());
+    }
+
     if fast_eq_check(source, compact_type) {
         return Ok(());
     }
@@ -102,7 +108,6 @@ fn check_general_type_compact(
     }
 
     match source {
-        LuaType::Unknown | LuaType::Any => Ok(()),
         LuaType::TplRef(tpl) => {
             if let Some(source_constraint) = tpl.get_constraint() {
                 return check_general_type_compact(
